@@ -438,6 +438,16 @@ func c07Assertions(c *run.Ctx, r *rand.Rand, id string, k c07cfg, w *world.World
 		c07Judge(c, id, "jwt_bearer_assertion", off, out.Err == nil, world.ErrDetail(out.Err), hist)
 		out = w.Token(url.Values{"grant_type": {"client_credentials"}, "scope": {"fosite"}}, world.Auth{Mode: "none", Assertion: ca})
 		c07Judge(c, id, "client_assertion", off, out.Err == nil, world.ErrDetail(out.Err), hist)
+		// the same with a NumericDate that is not a whole number (legal JSON: exp = T - 0.5)
+		frac := func(m map[string]interface{}) { m["exp"] = float64(exp.Unix()) - 0.5 }
+		out = w.Token(url.Values{"grant_type": {"client_credentials"}, "scope": {"fosite"}}, world.Auth{Mode: "none", Assertion: clientAssertion("pkj", exp, frac)})
+		if off != -time.Second { // one second before T the fractional expiry is half a second away: inside the boundary second
+			c07Judge(c, id, "client_assertion(fractional exp)", off, out.Err == nil, world.ErrDetail(out.Err), hist)
+		}
+		out = w.Token(url.Values{"grant_type": {"urn:ietf:params:oauth:grant-type:jwt-bearer"}, "assertion": {bearerAssertion("svc-1", exp, frac)}, "scope": {"fosite"}}, world.Basic("conf-a", "secret-of-a"))
+		if off != -time.Second {
+			c07Judge(c, id, "jwt_bearer_assertion(fractional exp)", off, out.Err == nil, world.ErrDetail(out.Err), hist)
+		}
 	}
 	c.Sample(map[string]interface{}{"kind": "assertions", "config": k.String(), "presentations": hist})
 }
